@@ -487,7 +487,7 @@ Qed.
 (* the `eval` builtin.  Its last action is dec_ip (site 48, excluded thanks to [ipge]); the result
    state has ip decremented, hence [npost0] *)
 Theorem np_b_eval s : wfm s -> ipge s ->
-  npost0 okp s (b_eval s) (fun s' r => exists p, r = VPtr p /\ lamcell s' p).
+  npost0 okp s (b_eval s) (fun s' r => (exists p, r = VPtr p /\ lamcell s' p) /\ lamcell s' (fst (ip s'))).
 Proof.
   intros W Hip. unfold b_eval.
   eapply npost0_bind; [apply np_pop_argc, W|]. intros n s1 W1 G1 _.
@@ -502,9 +502,10 @@ Proof.
   eapply npost0_bind; [apply np_push; [exact W5|exact I]|]. intros u s6 W6 G6 _.
   assert (Hip6 : ipge s6).
   { assert (G : grow s s6) by gr. destruct G as [_ G]. apply G, Hip. }
-  unfold bindM, dec_ip. destruct Hip6 as [Hip6 _]. destruct (snd (ip s6) =? 0) eqn:E0.
+  unfold bindM, dec_ip. destruct Hip6 as [Hip6 Hl6]. destruct (snd (ip s6) =? 0) eqn:E0.
   { apply N.eqb_eq in E0. lia. }
   unfold ret. cbn [npost0]. split; [apply wfm_with_ip, W6|]. split; [apply grow0_with_ip|].
+  split; [|exact Hl6].
   exists p. split; [reflexivity|].
   eapply lamcell_grow; [apply grow0_with_ip|]. eapply lamcell_grow; [apply (grow_grow0 _ _ G6)|exact Hp].
 Qed.
